@@ -78,6 +78,7 @@ func chooseStrategy(r *explore.Run, b int, honest []int, cost int) shmx.Strategy
 	for _, h := range honest {
 		st.Apology[h] = ch(shmx.NumApology, fmt.Sprintf("apology->%d{honest,wrong,opposite}", h))
 	}
+	st.EvalsFirst = ch(2, "dealing-order{commitment first,evaluations first}") == 1
 	for c := 0; c < shmx.NumClass; c++ {
 		st.Late[c] = ch(2, [...]string{"commitment", "evals", "accusation", "apology"}[c]+"-timing{in-phase,one-phase-late}") == 1
 	}
@@ -89,6 +90,9 @@ func chooseStrategy(r *explore.Run, b int, honest []int, cost int) shmx.Strategy
 // to skip duplicates of the full product; under the default schedule the honest
 // keypers' accusations are a function of the script.
 func canonical(st shmx.Strategy, honest []int) bool {
+	if st.EvalsFirst && (st.Commit == shmx.CommitNone || st.Late[shmx.ClassCommit] != st.Late[shmx.ClassEval]) {
+		return false // the order only matters when both messages land in the same block
+	}
 	if st.Commit == shmx.CommitNone && st.Late[shmx.ClassCommit] {
 		return false
 	}
@@ -96,7 +100,7 @@ func canonical(st shmx.Strategy, honest []int) bool {
 	for _, h := range honest {
 		anyEval = anyEval || st.Evals[h] != shmx.EvalNone
 	}
-	if !anyEval && st.Late[shmx.ClassEval] {
+	if !anyEval && (st.Late[shmx.ClassEval] || st.EvalsFirst) {
 		return false
 	}
 	if st.Accuse < 0 && st.Late[shmx.ClassAccuse] {
@@ -346,7 +350,7 @@ func c07() *report.Check {
 		Level: "model_checking",
 		Rule: "stateless deviation-bounded DFS over complete key generations through fakeshm (real app.ShutterApp, real smobserver.SyncAppWithDB/ShuttermintState, real KeyperCore.handleOnChainChanges, real fx.SendShutterMessages + RPCMessageSender per honest keyper on minipg; scripted Byzantine signers). " +
 			"quick: n=3,t=2, every Byzantine index, all scripts within 2 deviations from honest behaviour x default schedule; all-honest runs with every pause placement in {0,1} per (keyper, phase) (2^9) and, at the default placement, every single step-order deviation (any of the 5 non-identity orders in any one block). " +
-			"thorough adds: the full script product (commitment 5 x eval 3^2 x false accusation 3 x apology 3^2 x timing 2^4, duplicates with an unsent message class skipped) per Byzantine index x default schedule; scripts within 2 deviations x every single schedule deviation (pause 1..2 of one honest keyper at one phase; any of the 5 non-identity step orders in any one block); all-honest pauses 0..2 within 2 deviations, phase length 4; n=4 (t=3 one Byzantine, t=2 two Byzantine) within 2 deviations. " +
+			"thorough adds: the full script product (commitment 5 x eval 3^2 x false accusation 3 x apology 3^2 x dealing order 2 x timing 2^4, duplicates with an unsent message class skipped) per Byzantine index x default schedule; scripts within 2 deviations x every single schedule deviation (pause 1..2 of one honest keyper at one phase; any of the 5 non-identity step orders in any one block); all-honest pauses 0..2 within 2 deviations, phase length 4; n=4 (t=3 one Byzantine, t=2 two Byzantine) within 2 deviations. " +
 			"Oracle per eon: equal PublicKey/PublicKeyShares among successful honest keypers, g2^secret == own public share, every t-subset interpolates to a key passing VerifyEpochSecretKey and decrypting a message encrypted to the eon key, DKG result votes on chain == rows, published eon key == result; all-honest in-phase => all succeed. Classes = who succeeded / failed with which error / which dealers are in the key (qualified set).",
 		Assumptions: []string{
 			"a keyper's loop iteration is atomic with respect to block boundaries (it runs while one block is open); which block, and in which order inside the block, is the explorer's choice",
